@@ -329,8 +329,13 @@ def gen_string_case(rng, length, stats):
     for _ in range(length):
         r = rng.random()
         n = near(rng, [0, 15, 16, 30, 31, 60, 61], 0, 70)
-        chars = " ".join(str(rng.randrange(97, 123)) for _ in range(n))
-        if r < 0.30:
+        # binary payloads too: embedded / leading / trailing NUL and other non-printable bytes
+        chars = " ".join(str(rng.choice([0, 0, 1, 127, 255]) if rng.random() < 0.15 else rng.randrange(97, 123)) for _ in range(n))
+        if r < 0.06:
+            ops.append(("smove " + chars).strip())
+            size = n
+            stats["string_move_assign"] = stats.get("string_move_assign", 0) + 1
+        elif r < 0.30:
             ops.append(("sassign " + chars).strip())
             size = n
         elif r < 0.50:
